@@ -1,6 +1,7 @@
 from checks import finite
 from checks.e3ir import run_e3ir
 from checks.e3meta import run_e3meta
+from checks.e3num import run_e3num
 from checks.e3tables import run_e3tables
 from checks.generic import run_components
 
@@ -10,5 +11,5 @@ ASSUME = ["E3 tables: run-time contract on build_optimized_tables (offsets, perm
 
 def run(tier, seed):
     return run_components("C10", tier, seed,
-                          ["e1", finite.c10_sumfact_scope, finite.c10_inapplicable_options, finite.c10_clamp, lambda rep, t, s: run_e3ir(rep, "C10", t, only=("tensor", "wf_blockmap")), "e2", run_e3meta, lambda rep, t, sd: run_e3tables(rep, t, sd, ("T-FACTORS",))],
+                          ["e1", finite.c10_sumfact_scope, finite.c10_inapplicable_options, finite.c10_clamp, lambda rep, t, s: run_e3ir(rep, "C10", t, only=("tensor", "wf_blockmap")), "e2", run_e3meta, run_e3num, lambda rep, t, sd: run_e3tables(rep, t, sd, ("T-FACTORS",))],
                           ASSUME, ["kernelvc (E2)"])
